@@ -566,6 +566,10 @@ func GenBigExpr(r *Rng) *Expr {
 		proj(recs, fn("sort", fn("keys", fn("merge", cur, &Expr{K: KHash, Keys: []string{"extra"}, C: []*Expr{field("id")}})))),
 		proj(recs, fn("length", fn("values", fn("merge", cur, field("pt"))))),
 		fn("map", ref(fn("items", &Expr{K: KHash, Keys: []string{"k", "v"}, C: []*Expr{field("name"), field("id")}})), recs),
+		// ... temporaries of equal size but different member names
+		proj(recs, fn("keys", fn("from_items", &Expr{K: KList, C: []*Expr{{K: KList, C: []*Expr{field("name"), field("id")}}}}))),
+		proj(recs, fn("sort", fn("keys", fn("from_items", &Expr{K: KList, C: []*Expr{{K: KList, C: []*Expr{field("grp"), field("id")}}, {K: KList, C: []*Expr{field("name"), field("on")}}}})))),
+		proj(recs, fn("values", fn("from_items", &Expr{K: KList, C: []*Expr{{K: KList, C: []*Expr{field("name"), field("id")}}}}))),
 	}
 	e := pick(r, c)
 	if r.P(1, 3) {
